@@ -40,9 +40,12 @@ class ImpactedPartition:
 
         # PEL sections are 4 byte aligned, so may need
         # to advance the stream past the padding to get ready
-        # for next section.
-        if self.targetLPcount % 2:
-            _ = self.stream.get_int(2)
+        # for next section.  The amount of padding depends on the name
+        # length as well as the LP count, so take it from the section length.
+        padding = self.sectionLen - 16 - self.lpNameLength - \
+            2 * self.targetLPcount
+        if padding > 0:
+            _ = self.stream.get_mem(padding)
 
         out = OrderedDict()
         out["Section Version"] = self.versionID
